@@ -217,6 +217,12 @@ func (self *BinaryConv) unmarshalSingular(ctx context.Context, resp http.Respons
 		message := (*fd).Message()
 		comma := false
 		start := p.Read
+		if l < 0 || start+l > len(p.Buf) {
+			return wrapError(meta.ErrRead, "message length exceeds input", nil)
+		}
+		// unpacked lists and maps read on while the next tag carries their field number: bound them by this message
+		whole := p.Buf
+		p.Buf = whole[:start+l]
 
 		*out = json.EncodeObjectBegin(*out)
 
@@ -252,6 +258,7 @@ func (self *BinaryConv) unmarshalSingular(ctx context.Context, resp http.Respons
 				return unwrapError(fmt.Sprintf("converting field %s of MESSAGE %s failed", fd.Name(), fd.Kind()), err)
 			}
 		}
+		p.Buf = whole
 		*out = json.EncodeObjectEnd(*out)
 	default:
 		return wrapError(meta.ErrUnsupportedType, fmt.Sprintf("unknown descriptor type %s", fd.Type()), nil)
